@@ -215,6 +215,16 @@ def rows():
             f = NaiveForecaster(strategy="mean", window_length=4, sp=2)
             return lambda: (f.fit(c["y"]), f)
         add("naive.fit", fault, faulty_s, control_s)
+
+    # the window implied by the seasonal period (no window_length given) does not fit the series either
+    def faulty_spw(c):
+        f = NaiveForecaster(strategy="last", sp=c["n"] + 1 + c["variant"] % 3)
+        return lambda: (f.fit(c["y"]), f)
+
+    def control_spw(c):
+        f = NaiveForecaster(strategy="last", sp=c["n"] - 1)
+        return lambda: (f.fit(c["y"]), f)
+    add("naive.fit", "seasonal_window_larger_than_series", faulty_spw, control_spw)
     for fault, kw in (("sp_nonpositive", dict(sp=0)), ("sp_noninteger", dict(sp=2.5))):
         def faulty_t(c, kw=kw):
             f = ThetaForecaster(**kw)
@@ -292,6 +302,9 @@ def rows():
     for fault, kwf in (("unknown_strategy", lambda c: dict(strategy=["restart", "Refit", "UPDATE", "refit ", ""][c["variant"] % 5])),
                        ("multivariate_target", lambda c: dict(y=pd.DataFrame({"a": c["y"], "b": c["y"]}))),
                        ("unsorted_index", lambda c: dict(y=unsorted(c))),
+                       # exogenous data that agree with the target on every training window and differ only at the end
+                       ("x_index_differs", lambda c: dict(X=c["X"].set_axis(list(c["X"].index[:-1]) + [c["X"].index[-1] + 1 + c["variant"] % 2]))),
+                       ("x_index_superset", lambda c: dict(X=pd.concat([c["X"], c["X"].iloc[-2:].set_axis([c["X"].index[-1] + 1, c["X"].index[-1] + 2])]))),
                        ("start_with_window_false", lambda c: dict(cv=ExpandingWindowSplitter(fh=[1], initial_window=10, start_with_window=False))),
                        ("scoring_not_callable", lambda c: dict(scoring="mape")),
                        ("window_larger_than_series", lambda c: dict(cv=ExpandingWindowSplitter(fh=[1], initial_window=300)))):
